@@ -1435,6 +1435,8 @@ class Engine:
         dv = self.eval(d, env)
         if isinstance(dv, (PyFunc, BoundMethod)):
             return self.call(dv, [f], {})
+        if isinstance(dv, Builtin) and dv.name in ('lru_cache', 'cache', 'lru_cache()'):
+            return self.call(dv, [f], {})
         if isinstance(dv, self.models.CtxManagerFromGen) and isinstance(f, PyFunc):
             # contextlib.ContextDecorator: `@cm()` on a function = a fresh context manager around every *call* of it.
             # (Around the call only: for an `async def` the call merely creates the coroutine - awaiting it happens outside.)
